@@ -68,8 +68,12 @@ def truncLexeme (r : Str) : Option Int :=
     else none
   | _ => none
 
+/-- `str.lower()` on ASCII and Latin-1 letters -/
+def lowerL1 (c : Char) : Char :=
+  if ('A' ≤ c && c ≤ 'Z') || (0xC0 ≤ c.toNat && c.toNat ≤ 0xDE && c.toNat != 0xD7) then Char.ofNat (c.toNat + 32) else c
+
 def trLower : Val → Val
-  | .str s => .str (Py.lower s)
+  | .str s => .str (s.map lowerL1)
   | v => v
 
 def trConst : Val → Val
